@@ -189,7 +189,7 @@ def misc_shapes():
 
 
 def all_shapes():
-    return param_shapes() + with_item_shapes() + misc_shapes()
+    return param_shapes() + with_item_shapes() + misc_shapes() + literal_spellings()
 
 
 def rule_violations():
@@ -209,3 +209,24 @@ def rule_violations():
     out += ["(*a)\n", "( *a )\n", "(**a)\n", "x = (*a)\n", "f((*a))\n", "[(*a)]\n", "match x:\n    case 1 as _: pass\n",
             "match x:\n    case [a, b as _]: pass\n", "match x:\n    case (1|2) as _: pass\n"]
     return list(dict.fromkeys(out))
+
+
+def literal_spellings():
+    """every family of numeric / string literal SPELLING (not value): leading zeros where Python allows them, underscores,
+    exponent forms, imaginary suffix in both cases, radix prefixes in both cases, string prefixes in every case and order"""
+    ints = ["0", "00", "000", "0_0", "1", "10", "1_0", "123_456", "9" * 25, "0x1f", "0X1F", "0x_1f", "0XdeadBEEF", "0o17", "0O_17", "0b101", "0B_1_0"]
+    floats = ["0.", "1.", ".5", "0.5", "1.5", "00.5", "01.5", "1e5", "1E5", "1e+5", "1e-5", "01e1", "1_0.0_1", "1_0e1_0", "1.e5", ".5e-3", "0e0",
+              "007.", "09.5", "0_9.0", "1e308", "1e-400", "1.7976931348623157e308"]
+    imags = [d + j for d in ["0", "00", "01", "007", "09", "0_9", "1", "10", "1_0", "0.", "1.", ".5", "01.5", "1e5", "01e1", "1_0.0_1e1_0", "00.0"] for j in "jJ"]
+    out = []
+    for n in ints + floats + imags:
+        out += [f"x = {n}\n", f"x = -{n}\n", f"x = [{n}, {n}]\n", f"f({n})\n", f"x = {n} + {n}\n", f"x = {n} if {n} else {n}\n"]
+    for n in ints[:8] + floats[:6]:
+        out.append(f"x = {n} .real\n")
+        out.append(f"x = ({n}).real\n")
+    prefixes = ["", "r", "R", "u", "U", "b", "B", "br", "Br", "bR", "BR", "rb", "rB", "Rb", "RB", "f", "F", "fr", "Fr", "fR", "FR", "rf", "rF", "Rf", "RF"]
+    for p in prefixes:
+        for q in ("'", '"', "'''", '"""'):
+            out.append(f"x = {p}{q}a{q}\n")
+            out.append(f"x = {p}{q}{q}\n")
+    return out
